@@ -121,6 +121,11 @@ func (l *lexer) nextToken(r rune, text string) (tok Token, _ bool) {
 		// FIXME(tdakkota): does it work in all cases?
 		if tt.IsFunction() {
 			scanSpace(&l.scanner)
+			// Comments may separate function name and its arguments.
+			for l.scanner.Peek() == '#' {
+				lexerql.ScanComment(&l.scanner)
+				scanSpace(&l.scanner)
+			}
 			switch l.scanner.Peek() {
 			case '(', 'b', 'w': // "(", "by", "without"
 			default:
